@@ -1,0 +1,48 @@
+//go:build verif
+
+package net
+
+// Machine-checked contracts for the wire-frame codec (property C23).
+// Comment-only file: it adds no code to the package. Read by /verif/govc.
+
+//@ property C23
+
+// ghost flags: the decoder got past its header validation
+//@ ghost var reached_lookup bool
+
+// UnmarshalBinary accepts exactly the frames whose header is well formed
+// (then the type lookup / proto decoding decide), and never panics.
+//@ func (*ProtoSerializer).UnmarshalBinary(x, data)
+//@   ghost entry reached_lookup = false
+//@   at call 1 of FindMessageType ghost reached_lookup = true
+//@   ensures accepts-exactly-wellformed-headers: reached_lookup == (len(data) >= 8 && be32(data, 0) >= 8 && be32(data, 0) <= len(data) && 8 + be32(data, 4) <= be32(data, 0))
+//@   ensures malformed-header-is-an-error: !reached_lookup ==> result2 != nil
+
+//@ func (*ProtoSerializer).UnmarshalBinaryWithMetadata(x, data)
+//@   ghost entry reached_lookup = false
+//@   at call 1 of FindMessageType ghost reached_lookup = true
+//@   ensures accepts-exactly-wellformed-headers: reached_lookup == (len(data) >= 12 && be32(data, 0) >= 12 && be32(data, 0) <= len(data) && 12 + be32(data, 4) + be32(data, 8) <= be32(data, 0))
+//@   ensures malformed-header-is-an-error: !reached_lookup ==> result3 != nil
+
+// Metadata.UnmarshalBinary: memory-safe on every byte string.
+//@ func (*Metadata).UnmarshalBinary(m, data)
+//@   loop 1 invariant cursor-in-bounds: 2 <= pos && pos <= len(data)
+//@   ensures short-input-rejected: len(data) < 10 ==> result != nil
+
+// readProtoFrame: allocation bounded by maxFrameSize, frame length = announced length.
+//@ func readProtoFrame(reader, framePool, maxFrameSize)
+//@   ensures frame-has-announced-length: result1 == nil ==> len(result0) >= 8 && len(result0) <= int(maxFrameSize)
+//@   at call 1 of (*FramePool).Get assert allocation-bounded: arg1 >= 8 && arg1 <= int(maxFrameSize)
+
+//@ func (*FramePool).Get(x, n)
+//@   trusted "pool representation (buckets hold buffers of their size class) is not modelled; assumed: returns a buffer of length n"
+//@   requires n >= 0
+//@   ensures len(result) == n
+
+//@ func (*FramePool).Put(x, buf)
+//@   trusted "returns the buffer to its size class; no effect on caller-visible state"
+//@   modifies nothing
+
+// unmarshalProtoResponse: format detection never panics.
+//@ func (*Client).unmarshalProtoResponse(c, frame)
+//@   requires c.serializer != nil
